@@ -11,6 +11,7 @@ import (
 	"sort"
 	"strconv"
 	"strings"
+	"time"
 
 	"github.com/EdgeCast/vflow/ipfix"
 	netflow5 "github.com/EdgeCast/vflow/netflow/v5"
@@ -177,6 +178,21 @@ func checkModelEquality(prop string, p *PipePlan, obs *PipeObs, out *RunOut, pro
 	idx := indexPublished(obs)
 	recv := receivedCount(obs)
 	seen := map[string]bool{}
+	// a network duplicate may arrive before its original: the earliest arrival
+	// of either bounds the collection time from below
+	firstAt := map[string]time.Duration{}
+	for i := range p.Dels {
+		d := &p.Dels[i]
+		if recv[d.ID] == 0 {
+			continue
+		}
+		k := fmt.Sprintf("%s/%d", d.Proto, seqOfDelivery(d))
+		if at, ok := obs.DeliveredAt[d.ID]; ok {
+			if cur, have := firstAt[k]; !have || at < cur {
+				firstAt[k] = at
+			}
+		}
+	}
 	for i := range p.Dels {
 		d := &p.Dels[i]
 		if !protos[d.Proto] || d.hostile || d.ambiguous || d.DupOf > 0 || recv[d.ID] == 0 {
@@ -212,7 +228,7 @@ func checkModelEquality(prop string, p *PipePlan, obs *PipeObs, out *RunOut, pro
 					diffs = model.CompareV5JSON(d.expV5, pub.Payload)
 				}
 			case d.expSF != nil:
-				lo := simEpoch + int64(obs.DeliveredAt[d.ID].Seconds())
+				lo := simEpoch + int64(firstAt[k].Seconds())
 				hi := simEpoch + int64(pub.At.Seconds())
 				if pub.At == 0 {
 					hi = simEpoch + int64(obs.SimTime.Seconds())
